@@ -88,6 +88,14 @@ def build_binary(cfg, kind):
             cmd = ["gcc"] + SAN + flags + srcs + [f"{HARNESS}/harness.c", f"{HARNESS}/wrapmalloc.c", "-Wl,--wrap=malloc", "-o", tmp]
         elif kind == "extract":
             cmd = ["gcc"] + SAN + flags + srcs + [f"{HARNESS}/extract.c", "-o", tmp]
+        elif kind == "extractseg":
+            # library as a shared object + the extractor's lookup sweep with the writable-segment comparison (C18)
+            so = os.path.join(d, f"librds_{cfg}.so")
+            if not os.path.exists(so):
+                r = run(["gcc", "-O1", "-g", "-fPIC", "-shared", "-Wl,-z,relro,-z,now"] + flags + srcs + ["-o", so])
+                if r.returncode != 0:
+                    raise BuildError("shared library build failed:\n" + r.stderr[-3000:])
+            cmd = ["gcc", "-O1", "-g", "-DSEGCHECK", "-D_GNU_SOURCE", f"-I{HARNESS}"] + flags + [f"{HARNESS}/extract.c", so, "-ldl", f"-Wl,-rpath,{d}", "-o", tmp]
         elif kind == "extractplain":
             cmd = ["gcc", "-O1", "-g"] + flags + srcs + [f"{HARNESS}/extract.c", "-o", tmp]
         elif kind == "plain":
